@@ -460,4 +460,80 @@ theorem compute_refG_aux (N : Nat) : ∀ node : Node, sizeOf node < N → NodeRe
       exact ih st (by simp only [Node.label.sizeOf_spec] at hsz; omega) cmd hd hn hc hg q idx dg out hco
 
 end Refine
+
+open Spec Refine in
+/-- **Refinement, loops included.**  Whenever `Analysis.compute` returns (the fixpoint loops are
+    fuelled: success is a hypothesis) on a statement of the supported fragment read as `cmd`:
+
+    1. run to completion (`q = true`) it never sets the exit flag;
+    2. (ghost fact for early exit) the delta graph it returns arises from the one it was given
+       through a history `ops` of `insert_node` / `fusion` steps, and every inserted tuple `t`
+       matches only choice vectors at which the derivation of `cmd` FAILS;
+    3. when the exit flag is not set, it has consumed exactly `cmd.arity` derivation indices and
+       returns ONE well-formed relation over variables of `cmd` which, at every choice vector valid
+       on the statement's index range, means exactly what the calculus derives over any universe
+       `U ⊇ cmd.vars`: where the calculus derives a matrix the relation is ∞-free and equal to it,
+       where the derivation fails the relation carries an ∞.
+
+    `_partial`, three hypotheses differ from the statement first asked:
+    * `namesOkA`, `castOkA` are `namesOk`, `castOk` extended to loop bodies (`namesOk` / `castOk`
+      stop at loops; see `while_body_cast_counterexample`);
+    * `guardsFresh cmd`: the guard variable of every counted loop is a non-empty name not mentioned
+      by the loop body.  `Coverage.loop_compat` is meant to guarantee this but tests the body's
+      variables as recorded by `Variables`, which drops the reserved names `true` / `false`:
+      see `reserved_guard_counterexample`. -/
+theorem compute_refines_partial (node : Node) (cmd : Cmd) (hd : desugar node = some cmd)
+    (q : Bool) (idx : Nat) (dg : DG.Graph) (hnames : namesOkA node = true) (hcast : castOkA node = true)
+    (hfresh : guardsFresh cmd = true)
+    (out : Analysis.Out) (hc : Analysis.compute q idx dg node = .ok out) :
+    (q = true → out.exit = false) ∧
+    (∃ ops : List DG.Op, ops.foldlM DG.step dg = .ok out.dg ∧
+      ∀ t ∈ DG.inserted ops, ∀ U : List String, U.Nodup → (∀ v ∈ cmd.vars, v ∈ U) →
+        ∀ c : Choice, (∀ k, idx ≤ k → k < idx + cmd.arity → ∃ a, c[k]? = some a ∧ a < 3) →
+          (t.all fun d => c[d.2]? == some d.1) = true →
+          sem U cmd idx (relabelAt idx cmd c) = none) ∧
+    (out.exit = false →
+      out.index = idx + cmd.arity ∧
+      ∃ r, out.rels = [r] ∧ r.WF ∧ (∀ v ∈ r.vars, v ∈ cmd.vars) ∧
+        ∀ U : List String, U.Nodup → (∀ v ∈ cmd.vars, v ∈ U) →
+        ∀ c : Choice, (∀ k, idx ≤ k → k < idx + cmd.arity → ∃ a, c[k]? = some a ∧ a < 3) →
+          match sem U cmd idx (relabelAt idx cmd c) with
+          | some (k, M) => k = idx + cmd.arity ∧ (∀ a b, r.den c a b ≠ .i) ∧
+                           ∀ x y, x ∈ U → y ∈ U → r.den c x y = SMat.den U M x y
+          | none => ∃ a b, r.den c a b = .i) := by
+  have R := compute_refG_aux (sizeOf node + 1) node (Nat.lt_succ_self _) cmd hd hnames hcast hfresh
+    q idx dg out hc
+  refine ⟨R.noexit, ?_, ?_⟩
+  · obtain ⟨ops, hops, hP⟩ := R.ghost
+    refine ⟨ops, hops, ?_⟩
+    intro t ht U hU hsub c hval hm
+    exact hP t ht U hU hsub c hval hm _ (relabelAt_relab idx cmd c)
+  · intro he
+    obtain ⟨hi, r, hr, wr, vr, semr⟩ := R.main he
+    refine ⟨hi, r, hr, wr, vr, ?_⟩
+    intro U hU hsub c hval
+    rcases semr U hU hsub c hval _ (relabelAt_relab idx cmd c) with ⟨s, i⟩ | ⟨s, f⟩
+    · rw [s]; exact i
+    · rw [s]
+      exact ⟨rfl, f, fun x y hx hy => (den_matOf U _ hx hy).symm⟩
+
+open Spec Refine in
+/-- Priority (A) as a corollary: no counted loop in `cmd` (nothing to assume about guards). -/
+theorem compute_refines_while_partial (node : Node) (cmd : Cmd) (hd : desugar node = some cmd)
+    (q : Bool) (idx : Nat) (dg : DG.Graph) (hnames : namesOkA node = true) (hcast : castOkA node = true)
+    (hfresh : guardsFresh cmd = true)
+    (out : Analysis.Out) (hc : Analysis.compute q idx dg node = .ok out) :
+    (q = true → out.exit = false) ∧
+    (out.exit = false →
+      out.index = idx + cmd.arity ∧
+      ∃ r, out.rels = [r] ∧ r.WF ∧ (∀ v ∈ r.vars, v ∈ cmd.vars) ∧
+        ∀ U : List String, U.Nodup → (∀ v ∈ cmd.vars, v ∈ U) →
+        ∀ c : Choice, (∀ k, idx ≤ k → k < idx + cmd.arity → ∃ a, c[k]? = some a ∧ a < 3) →
+          match sem U cmd idx (relabelAt idx cmd c) with
+          | some (k, M) => k = idx + cmd.arity ∧ (∀ a b, r.den c a b ≠ .i) ∧
+                           ∀ x y, x ∈ U → y ∈ U → r.den c x y = SMat.den U M x y
+          | none => ∃ a b, r.den c a b = .i) :=
+  let h := compute_refines_partial node cmd hd q idx dg hnames hcast hfresh out hc
+  ⟨h.1, h.2.2⟩
+
 end Mwp
